@@ -375,3 +375,22 @@ mod test {
         assert_eq!(input, expected)
     }
 }
+
+/// Thin wrapper used by the out-of-tree verification harness.
+#[cfg(rust_lang_rustfmt_verif)]
+pub mod verif_hooks {
+    /// `version_sort` of every pair: -1, 0, 1 per cell, row-major.
+    pub fn version_sort_matrix(idents: &[String]) -> Vec<i8> {
+        let mut out = Vec::with_capacity(idents.len() * idents.len());
+        for a in idents {
+            for b in idents {
+                out.push(match super::version_sort(a, b) {
+                    std::cmp::Ordering::Less => -1,
+                    std::cmp::Ordering::Equal => 0,
+                    std::cmp::Ordering::Greater => 1,
+                });
+            }
+        }
+        out
+    }
+}
